@@ -50,6 +50,12 @@ impl BinaryOctetVec {
         self.length
     }
 
+    // verification hook H5: unpack to one byte (0/1) per element
+    #[cfg(raptorq_verif)]
+    pub fn verif_to_octet_vec(&self) -> Vec<u8> {
+        self.to_octet_vec()
+    }
+
     fn to_octet_vec(&self) -> Vec<u8> {
         let mut word = 0;
         let mut bit = self.padding_bits();
@@ -82,6 +88,52 @@ impl BinaryOctetVec {
     }
 }
 
+// verification hook H4: per-thread forced arithmetic kernel level. `Auto` (the default) leaves the
+// shipped run-time dispatch below untouched; any other level makes the four dispatch functions
+// call the named kernel directly. Only levels for which `supported()` is true may be forced.
+#[cfg(all(raptorq_verif, feature = "std"))]
+pub mod verif_kernel {
+    use std::cell::Cell;
+
+    #[derive(Copy, Clone, Debug, PartialEq, Eq)]
+    pub enum Level {
+        Auto,
+        Portable,
+        Ssse3,
+        Avx2,
+        Avx512,
+    }
+
+    std::thread_local! {
+        static LEVEL: Cell<Level> = const { Cell::new(Level::Auto) };
+    }
+
+    pub fn set(level: Level) {
+        assert!(supported(level));
+        LEVEL.with(|l| l.set(level));
+    }
+
+    pub fn get() -> Level {
+        LEVEL.with(|l| l.get())
+    }
+
+    pub fn supported(level: Level) -> bool {
+        match level {
+            Level::Auto | Level::Portable => true,
+            #[cfg(any(target_arch = "x86", target_arch = "x86_64"))]
+            Level::Ssse3 => is_x86_feature_detected!("ssse3"),
+            #[cfg(any(target_arch = "x86", target_arch = "x86_64"))]
+            Level::Avx2 => is_x86_feature_detected!("avx2") && is_x86_feature_detected!("bmi1"),
+            #[cfg(any(target_arch = "x86", target_arch = "x86_64"))]
+            Level::Avx512 => {
+                is_x86_feature_detected!("avx512f") && is_x86_feature_detected!("avx512bw")
+            }
+            #[cfg(not(any(target_arch = "x86", target_arch = "x86_64")))]
+            _ => false,
+        }
+    }
+}
+
 #[inline]
 pub fn fused_addassign_mul_scalar_binary(
     octets: &mut [u8],
@@ -97,6 +149,26 @@ pub fn fused_addassign_mul_scalar_binary(
     assert_eq!(octets.len(), other.len());
     if octets.is_empty() {
         return;
+    }
+    #[cfg(all(raptorq_verif, feature = "std", any(target_arch = "x86", target_arch = "x86_64")))]
+    {
+        match verif_kernel::get() {
+            verif_kernel::Level::Auto => {}
+            verif_kernel::Level::Avx512 => unsafe {
+                return fused_addassign_mul_scalar_binary_avx512(octets, other, scalar);
+            },
+            verif_kernel::Level::Avx2 => unsafe {
+                return fused_addassign_mul_scalar_binary_avx2(octets, other, scalar);
+            },
+            verif_kernel::Level::Ssse3 | verif_kernel::Level::Portable => {
+                // no binary kernel at these levels: same route as the shipped fall-through
+                if *scalar == Octet::one() {
+                    return add_assign(octets, &other.to_octet_vec());
+                } else {
+                    return fused_addassign_mul_scalar(octets, &other.to_octet_vec(), scalar);
+                }
+            }
+        }
     }
     #[cfg(all(any(target_arch = "x86", target_arch = "x86_64"), feature = "std"))]
     {
@@ -614,6 +686,24 @@ unsafe fn mulassign_scalar_ssse3(octets: &mut [u8], scalar: &Octet) {
 
 #[inline]
 pub fn mulassign_scalar(octets: &mut [u8], scalar: &Octet) {
+    #[cfg(all(raptorq_verif, feature = "std", any(target_arch = "x86", target_arch = "x86_64")))]
+    {
+        match verif_kernel::get() {
+            verif_kernel::Level::Auto => {}
+            verif_kernel::Level::Avx512 => unsafe {
+                return mulassign_scalar_avx512(octets, scalar);
+            },
+            verif_kernel::Level::Avx2 => unsafe {
+                return mulassign_scalar_avx2(octets, scalar);
+            },
+            verif_kernel::Level::Ssse3 => unsafe {
+                return mulassign_scalar_ssse3(octets, scalar);
+            },
+            verif_kernel::Level::Portable => {
+                return mulassign_scalar_fallback(octets, scalar);
+            }
+        }
+    }
     #[cfg(all(any(target_arch = "x86", target_arch = "x86_64"), feature = "std"))]
     {
         if is_x86_feature_detected!("avx512f") && is_x86_feature_detected!("avx512bw") {
@@ -828,6 +918,24 @@ pub fn fused_addassign_mul_scalar(octets: &mut [u8], other: &[u8], scalar: &Octe
     );
 
     assert_eq!(octets.len(), other.len());
+    #[cfg(all(raptorq_verif, feature = "std", any(target_arch = "x86", target_arch = "x86_64")))]
+    {
+        match verif_kernel::get() {
+            verif_kernel::Level::Auto => {}
+            verif_kernel::Level::Avx512 => unsafe {
+                return fused_addassign_mul_scalar_avx512(octets, other, scalar);
+            },
+            verif_kernel::Level::Avx2 => unsafe {
+                return fused_addassign_mul_scalar_avx2(octets, other, scalar);
+            },
+            verif_kernel::Level::Ssse3 => unsafe {
+                return fused_addassign_mul_scalar_ssse3(octets, other, scalar);
+            },
+            verif_kernel::Level::Portable => {
+                return fused_addassign_mul_scalar_fallback(octets, other, scalar);
+            }
+        }
+    }
     #[cfg(all(any(target_arch = "x86", target_arch = "x86_64"), feature = "std"))]
     {
         if is_x86_feature_detected!("avx512f") && is_x86_feature_detected!("avx512bw") {
@@ -1045,6 +1153,24 @@ unsafe fn add_assign_ssse3(octets: &mut [u8], other: &[u8]) {
 
 #[inline]
 pub fn add_assign(octets: &mut [u8], other: &[u8]) {
+    #[cfg(all(raptorq_verif, feature = "std", any(target_arch = "x86", target_arch = "x86_64")))]
+    {
+        match verif_kernel::get() {
+            verif_kernel::Level::Auto => {}
+            verif_kernel::Level::Avx512 => unsafe {
+                return add_assign_avx512(octets, other);
+            },
+            verif_kernel::Level::Avx2 => unsafe {
+                return add_assign_avx2(octets, other);
+            },
+            verif_kernel::Level::Ssse3 => unsafe {
+                return add_assign_ssse3(octets, other);
+            },
+            verif_kernel::Level::Portable => {
+                return add_assign_fallback(octets, other);
+            }
+        }
+    }
     #[cfg(all(any(target_arch = "x86", target_arch = "x86_64"), feature = "std"))]
     {
         if is_x86_feature_detected!("avx512f") {
